@@ -46,6 +46,18 @@ FinScope == Conde2(FinPrefixes) \cup Conde3(FinPrefixes) \cup Nested(FinPrefixes
 GrowScope == Conde2(AllPrefixes) \cup Nested(AllPrefixes)
              \cup {<<"loop", << <<g>> >> >> : g \in Conde2({<<>>, <<Two>>})}
 
+(* thorough tier: more prefixes, three full branches, two levels of nesting *)
+FinPrefixesT == FinPrefixes \cup {<<Two, Two>>, <<Two, Always>>, <<Always, Two>>, << <<"fresh", <<>>, <<Never>> >> >>,
+                                  << <<"fresh", <<>>, <<Two>> >>, Always>>}
+AllPrefixesT == AllPrefixes \cup {<<Two, LoopP>>, <<LoopP, Always>>}
+Conde3T(P) == {<<"conde", <<BranchOf(p1, "b1"), BranchOf(p2, "b2"), BranchOf(p3, "b3")>> >> : p1 \in P, p2 \in P, p3 \in P}
+Nested2(P) == {<<"conde", << << <<"conde", <<BranchOf(p1, "b1"), << <<"conde", << <<Never>>, BranchOf(p2, "b2") >> >> >> >> >> >>,
+                             BranchOf(p3, "b3") >> >> : p1 \in P, p2 \in P, p3 \in P}
+FinScopeT == Conde2(FinPrefixesT) \cup Conde3T(FinPrefixes) \cup Nested(FinPrefixesT) \cup Under(FinPrefixesT)
+             \cup WithDfs(FinPrefixesT) \cup Nested2(FinPrefixes)
+GrowScopeT == Conde2(AllPrefixesT) \cup Nested(AllPrefixesT) \cup Conde3T({<<>>, <<Two>>, <<LoopP>>, <<Never>>})
+              \cup {<<"loop", << <<g>> >> >> : g \in Conde2({<<>>, <<Two>>, <<Always>>})}
+
 (* the branches of a case, by label: the goal list of the branch as a conjunction *)
 RECURSIVE BranchesOf(_)
 BranchesOf(g) ==
